@@ -10,6 +10,11 @@
                  back in place of their placeholders; plus the two switches of that loop
                  (NBSP substitution, backslash doubling)
 
+  maskLoop     : the statements of the literal-masking loop at the top of the statement loop of
+                 `FortranContainer._initialize` ("Temporarily replace all strings": `self.strings = []`,
+                 `search_from = 0`, `while quote := QUOTES_RE.search(...)` and its body), as normalised
+                 source text (`ast.unparse`); `Show.cutGo` is the deterministic reading of this loop
+
 A construct that cannot be found or is not recognised raises (= "tie broken", never a pass).
 """
 from __future__ import annotations
@@ -84,9 +89,47 @@ def initial_steps():
     return steps, bool(nbsp), bool(dbl)
 
 
+def mask_loop():
+    """The masking loop of the parser: inside a method of `FortranContainer`, in the body of the
+    `for line in source:` loop, the run `self.strings = []` / `search_from = 0` / `while ... QUOTES_RE ...`."""
+    src = (common.REPO / "ford" / "sourceform.py").read_text()
+    tree = ast.parse(src)
+    classes = [n for n in tree.body if isinstance(n, ast.ClassDef) and n.name == "FortranContainer"]
+    if len(classes) != 1:
+        raise ValueError("ford/sourceform.py: class FortranContainer not found")
+    found = []
+    for loop in ast.walk(classes[0]):
+        if not (isinstance(loop, ast.For) and ast.unparse(loop.iter) == "source"):
+            continue
+        body = loop.body
+        for i, st in enumerate(body):
+            if ast.unparse(st) != "self.strings = []":
+                continue
+            run = [st]
+            for nxt in body[i + 1:]:
+                run.append(nxt)
+                if isinstance(nxt, ast.While):
+                    break
+                if not isinstance(nxt, ast.Assign):
+                    break
+            if not isinstance(run[-1], ast.While) or "QUOTES_RE" not in ast.unparse(run[-1].test):
+                raise ValueError("FortranContainer: `self.strings = []` is not followed by the QUOTES_RE masking loop")
+            if run[-1].orelse:
+                raise ValueError("FortranContainer: masking loop has an else branch")
+            found.append(run)
+    if len(found) != 1:
+        raise ValueError(f"FortranContainer: expected exactly one literal-masking loop, found {len(found)}")
+    run = found[0]
+    out = [ast.unparse(st) for st in run[:-1]]
+    out.append("while " + ast.unparse(run[-1].test) + ":")
+    out += ["    " + ln for b in run[-1].body for ln in ast.unparse(b).split("\n")]
+    return out
+
+
 def translate():
     rx = regex_sources()
     steps, nbsp, dbl = initial_steps()
+    mloop = mask_loop()
     b = lambda v: "true" if v else "false"
     lines = ["/- GENERATED by translate/c02.py from ford/reader.py and ford/sourceform.py - do not edit -/",
              "import FordModel.InitSteps",
@@ -101,9 +144,13 @@ def translate():
               "/-- the re-insertion loop substitutes NBSPs / doubles backslashes -/",
               f"def restoreNbsp : Bool := {b(nbsp)}",
               f"def restoreDoubleBs : Bool := {b(dbl)}", "",
+              "/-- the literal-masking loop of `FortranContainer._initialize` (normalised source text) -/",
+              "def maskLoop : List String := ["]
+    lines += ["  %s%s" % (lean_str(t), "," if i < len(mloop) - 1 else "") for i, t in enumerate(mloop)]
+    lines += ["]", "",
               "end Ford.Generated.C02", ""]
     common.write_if_changed(OUT, "\n".join(lines))
-    return rx, steps, nbsp, dbl
+    return rx, steps, nbsp, dbl, mloop
 
 
 if __name__ == "__main__":
